@@ -16,6 +16,7 @@ Definition run_model (i : input) : res (list value) :=
 (* exact sequence of rows *)
 Definition check_seq (i : input) (o : obs) : N :=
   match run_model i, o with
+  | OutOfModel, Panic => 3   (* observed on the real code: escaped panic, unstable result, modified input or a leak *)
   | OutOfModel, _ => 4
   | Ok m, Ok r => if list_veqb m r then 0 else 3
   | Err, Err => 0
@@ -37,6 +38,7 @@ Fixpoint perm_eqb (a b : list value) : bool :=
 
 Definition check_multiset (i : input) (o : obs) : N :=
   match run_model i, o with
+  | OutOfModel, Panic => 3   (* observed on the real code: escaped panic, unstable result, modified input or a leak *)
   | OutOfModel, _ => 4
   | Ok m, Ok r => if perm_eqb m r then 0 else 3
   | Err, Err => 0
@@ -64,6 +66,7 @@ Definition order_keys (q : stmt) : list (list string) :=
 Definition check_order (i : input) (o : obs) : N :=
   let '(_, _, q) := i in
   match run_model i, o with
+  | OutOfModel, Panic => 3   (* observed on the real code: escaped panic, unstable result, modified input or a leak *)
   | OutOfModel, _ => 4
   | Ok m, Ok r =>
       let ks := order_keys q in
@@ -131,6 +134,7 @@ Definition check_c12 (i : input) (o : obs) : N :=
   let '(wrapped, doc, q) := i in
   let m := api_run c12_call exec_join fuel wrapped doc q in
   match m, o with
+  | OutOfModel, Panic => 3   (* observed on the real code: escaped panic, unstable result, modified input or a leak *)
   | OutOfModel, _ => 4
   | Ok a, Ok b => if (if stmt_has_join q then perm_eqb a b else list_veqb a b) then 0 else 3
   | Err, Err => 0
